@@ -29,6 +29,10 @@ impl Group for C11Sim {
             c("forget 0|restart|hb"),
             c("vh 0 g 0|rv 0|scp 0 0|cpr 0 g|scp 0 1|restart|vh 0 g 1|rv 0|sh 0|restart|rv 0"),
             c("al add g|ks 1000|newch 4|forget 1|blk+ g|blk+ g|blk- g|restart|newch 4|al set gg"),
+            // a channel whose permanent id differs from its initial id (LDK-style flow)
+            c("world perm|vh 0 g 0|rv 0|scp 0 0|restart|scp 0 1|cpr 0 g|restart|sh 0"),
+            // multi-entry allowlist removals
+            c("al add gg|al rm gx|restart|al add x|al rm ggd|restart|al rm g2g"),
             // closing through either entry point must be durable
             c("vh 0 g 0|rv 0|scp 0 0|scp 0 0|cpr 0 g|mc1 b|mc1 g|restart|vh 0 g 3"),
             c("vh 0 g 0|rv 0|scp 0 0|scp 0 0|cpr 0 g|mc g|restart|vh 0 g 3"),
@@ -40,14 +44,16 @@ impl Group for C11Sim {
         for i in 0..ops.len() {
             if rng.chance(1, 6) { ops[i] = "restart".to_string(); }
         }
+        if rng.chance(1, 3) { ops.insert(0, "world perm".to_string()); }
         ops
     }
     fn exec_case(&self, ops: &[String]) -> CaseOut {
         let mut co = CaseOut::default();
-        let mut sim = Sim::new();
+        let mut sim = Sim::new_with(ops.first().map(|o| o == "world perm").unwrap_or(false));
         let mut kinds_changed = std::collections::BTreeSet::new();
         let mut n_changed = 0;
         for (i, op) in ops.iter().enumerate() {
+            if op == "world perm" { co.out.push("ok".into()); continue; }
             let before_view = view(&sim.node(), true);
             let (out, _pending) = exec_op(&mut sim, op);
             let kind = op.split(' ').next().unwrap_or("");
